@@ -618,7 +618,8 @@ type Dialer struct {
 	Net      *Net
 	Backend  *Listener
 	From     net.Addr
-	RefuseAt map[int]bool // dial indexes (1-based) that are refused
+	RefuseAt map[int]bool  // dial indexes (1-based) that are refused
+	Hold     time.Duration // every dial completes only after this much simulated time
 	Dials    int
 }
 
@@ -633,6 +634,20 @@ func (d *Dialer) DialContext(ctx context.Context, network, addr string) (net.Con
 		d.Net.fired("backend_refuse")
 		d.Net.mu.Unlock()
 		return nil, &net.OpError{Op: "dial", Net: "tcp", Err: os.NewSyscallError("connect", syscall.ECONNREFUSED)}
+	}
+	if d.Hold > 0 {
+		// a connection attempt that takes its time (SYN lost and retransmitted, a slow path):
+		// the caller waits, the clock runs
+		d.Net.mu.Lock()
+		d.Net.fired("backend_slow_dial")
+		d.Net.mu.Unlock()
+		tm := time.NewTimer(d.Hold)
+		select {
+		case <-tm.C:
+		case <-ctx.Done():
+			tm.Stop()
+			return nil, ctx.Err()
+		}
 	}
 	name := "be#"
 	if tag, ok := ctx.Value(ctxKeyTag{}).(string); ok {
